@@ -107,6 +107,20 @@ def check_lookups(t, snap=None, what="result"):
     if not snap["obs"] or not snap["samp"]:
         return
     rows = snap["rows"]
+
+    def cells():
+        for a, o in enumerate(snap["obs"]):
+            for b, s_ in enumerate(snap["samp"]):
+                got = float(t.get_value_by_ids(o, s_))
+                if got != rows[a][b]:
+                    raise Violation("lookup-inconsistent", "%s: get_value_by"
+                                    "_ids(%r, %r) = %r, matrix says %r" %
+                                    (what, o, s_, got, rows[a][b]))
+    # per-cell reads come first for half of the shapes: vector reads may
+    # re-lay-out the matrix and hide what a scalar read would have seen
+    cells_first = (len(snap["obs"]) + len(snap["samp"])) % 2 == 0
+    if cells_first:
+        cells()
     for axis, key in (("observation", "obs"), ("sample", "samp")):
         for k, i in enumerate(snap[key]):
             if not t.exists(i, axis=axis):
@@ -124,9 +138,5 @@ def check_lookups(t, snap=None, what="result"):
                 raise Violation("lookup-inconsistent", "%s: data(%r, %s) = "
                                 "%r, the vector of that id is %r" %
                                 (what, i, axis, got, want))
-    o, s_ = snap["obs"][-1], snap["samp"][-1]
-    if float(t.get_value_by_ids(o, s_)) != rows[-1][-1]:
-        raise Violation("lookup-inconsistent", "%s: get_value_by_ids(%r, %r)"
-                        " = %r, matrix says %r" %
-                        (what, o, s_, t.get_value_by_ids(o, s_),
-                         rows[-1][-1]))
+    if not cells_first:
+        cells()
